@@ -18,3 +18,18 @@ static mut REC: [u64; SLOTS] = [0; SLOTS];
 pub fn rec_set(slot: usize, v: u64) { unsafe { REC[slot] = v; } }
 pub fn rec_get(slot: usize) -> u64 { unsafe { REC[slot] } }
 pub fn rec_inc(slot: usize) -> u64 { unsafe { let v = REC[slot]; REC[slot] = v + 1; v } }
+
+/// Contract model of `core::str::from_utf8` for the only case the Display obligation
+/// needs: ASCII input is valid UTF-8 and is returned as is.  It ASSERTS that every byte
+/// is ASCII -- which is also exactly the precondition under which the crate's
+/// `from_utf8_unchecked` (feature `unsafe`) is sound.
+pub fn ascii_from_utf8(v: &[u8]) -> Result<&str, core::str::Utf8Error> {
+    let mut i = 0;
+    while i < v.len() {
+        assert!(v[i] < 0x80, "non-ASCII byte handed to from_utf8 / from_utf8_unchecked");
+        i += 1;
+    }
+    Ok(unsafe { core::str::from_utf8_unchecked(v) })
+}
+/// View ASCII bytes as &str (harness helper; asserts ASCII).
+pub fn ascii_str(v: &[u8]) -> &str { ascii_from_utf8(v).unwrap() }
